@@ -25,22 +25,22 @@ P = {
              note="a hung call is detected by the engine's watchdog and reported as non-termination", ref="5/C05"),
  "C06": dict(engine="E2+E1", technique="explicit-state exploration (every operation x reachable operand state x three API forms) plus exhaustive single-field corruption matrix",
              text="On every transition of the C02/C03 explorations: is_valid_for, byte equality of in-place/destination/_new forms, operands untouched; every entry point x operand position x single-field corruption must be refused.",
-             note="refusal = panic or Err; corruption alphabet listed in DESIGN 5/C06", ref="5/C06"),
+             note="refusal = panic or Err; the 26 corruptions are the enum `Corr` of props/c06.rs (DESIGN 5a/C06(b)); section `positions` sets one residue to its modulus at every word position", ref="5/C06"),
  "C07": dict(engine="E2", technique="explicit-state exploration of operation programs with an exact big-integer noise oracle evaluated in every reached state",
              text="For every state reached by program exploration (down to zero budget) the reported invariant noise budget is compared with the budget computed from the exact phase with independent big-integer arithmetic; fresh / negate / k-fold add bounds are checked.",
              note="secret key recovered by the naive inverse transform; BigU self-tested", ref="5/C07"),
  "C08": dict(engine="E1", technique="bounded exhaustive enumeration: all moduli < 2^7 x all operand pairs, boundary moduli x boundary operands, all word-alphabet operands for the multi-word helpers",
-             text="Every word-level modular primitive on ALL operand pairs for ALL moduli below 2^7 (2^8 thorough) and on a boundary product up to 61 bits; every multi-word helper of util::basic on all operand (pairs) over a carry/borrow word alphabet for lengths 1..3 (8 thorough), every shift amount, every result length — against u128 / BigU.",
+             text="Every word-level modular primitive on ALL operand pairs for ALL moduli below 2^7 (2^8 thorough) and on a boundary product up to 61 bits; every multi-word helper of util::basic on all operand (pairs) over a carry/borrow word alphabet for lengths 1..4 (8 thorough; structured families up to 65 (129) words in `big_multi`), every shift amount, every result length — against u128 / BigU.",
              note="moduli above 2^7 only on the boundary set; u128 and the self-tested BigU are trusted", ref="5/C08"),
  "C09": dict(engine="E1", technique="bounded exhaustive enumeration: all unit vectors (linearity), complete q^N spaces for tiny (N,q), extreme vectors, all first random draws of the root search (hook H3)",
-             text="Forward/inverse/lazy transforms and the polysmallmod wrappers on every unit vector for N=2..256 (8192 thorough) and several moduli, on all vectors for tiny (N,q), on lazy-range maxima; compared with the naive O(N^2) evaluation at psi^(2 brv(i)+1); root determinism by enumerating every draw.",
+             text="Forward/inverse/lazy transforms and the polysmallmod wrappers on every unit vector for N=2..1024 (8192 thorough) and several moduli, on all vectors for tiny (N,q), on lazy-range maxima; compared with the naive O(N^2) evaluation at psi^(2 brv(i)+1); root determinism by enumerating every draw.",
              note="composite moduli are out of the property's domain (observations only)", ref="5/C09"),
  "C10": dict(engine="E1", technique="bounded exhaustive enumeration: all integers below the base product for small bases, boundary residues for 60/61-bit bases, against big-integer specifications",
              text="RNSBase compose/decompose and every RNSTool routine (fastbconv_m_tilde, sm_mrq, fast_floor, fastbconv_sk, divide_and_round_q_last (ntt), mod_t_and_divide_q_last (ntt), decrypt_scale_and_round, decrypt_mod_t) are compared with BigU specifications with stated error terms on complete small spaces and boundary sets.",
              note="specifications derived in DESIGN 5/C10", ref="5/C10"),
  "C11": dict(engine="E1", technique="bounded exhaustive enumeration: unit slot vectors, complete t^N spaces for tiny (N,t), all rotation steps",
              text="decode(encode(v))=v, slot-wise sums/products vs. naive ring arithmetic, Galois action vs. matrix rotation for every step, polynomial encoding for boundary values; slot i defined independently as m(psi^(±3^i)).",
-             note="N<=64 (8192 thorough)", ref="5/C11"),
+             note="complete spaces for tiny (N,t); unit / length / step families up to N = 8192 in both tiers (quick: two (scheme, t) combinations at the largest degrees)", ref="5/C11"),
  "C12": dict(engine="E1", technique="bounded exhaustive enumeration: value alphabet^slots x scale grid crossing the 64/128-bit paths x chains x levels x five entry points",
              text="Each produced plaintext is CRT-composed with BigU and compared with the rounded scaled naive inverse embedding; decode returns the input within the bound; refusals checked.",
              note="naive embedding uses f64 sin/cos", ref="5/C12"),
@@ -50,14 +50,14 @@ P = {
  "C14": dict(engine="E1", technique="bounded exhaustive enumeration: object kind x byte-width boundary parameter sets x level x size x form x seeded x all term subsets",
              text="Every serializable object kind is written and read back by the real code over parameter sets covering every residue byte width; field-wise equality, serialized_size = written = consumed, back-to-back streams, foreign context, all 2^N term subsets for N<=8.",
              note="in-memory complete streams; faults are C15", ref="5/C14"),
- "C15": dict(engine="E4", technique="exhaustive fault-sequence enumeration: every write call x every short count / failure, every truncation offset, 0..2 deviations",
-             text="For every object kind, every single (and for small encodings double) deviation of the writer from accept-everything and every truncation offset of the reader is executed on the real serializers: complete-or-error, never a panic.",
+ "C15": dict(engine="E4", technique="exhaustive fault-sequence enumeration: every write call x every short count / failure, every truncation offset x read limit x one error at every read call; 1, 2 and (short encodings) 3 deviations",
+             text="For every object kind, every single deviation (pairs up to 420 / 1600 write calls, triples up to 26 / 72) of the writer from accept-everything and every truncation offset of the reader is executed on the real serializers: complete-or-error, never a panic.",
              note="writers obey the std::io::Write contract", ref="5/C15"),
  "C16": dict(engine="E1", technique="bounded exhaustive enumeration: all chunkings over a chunk alphabet across refills, all operation histories <=3, samplers as functions of all RNG byte patterns",
              text="BlakeRNG output vs. an independent blake3 recomputation under every chunking; freshness of masks/seeds over all histories of length <=3; exact push-forward distribution of the samplers by enumerating their RNG inputs.",
              note="statistical quality beyond these exact statements is out of scope. The samplers are compared pointwise with the reference mapping of the pinned commit first; when the mapping differs (a refactor may read the generator differently) the structure is discovered by probing and the exhaustive families are rebuilt on it (all 2^21 patterns of either half of the binomial sampler, all 2^32 u32 draws of the ternary one); a structure that is not recognised is reported as undecided (exhaustive=false), never as a violation; the byte stream itself is compared with an independent blake3 recomputation", ref="5/C16"),
  "C17": dict(engine="E3", technique="stateless model checking: depth-first enumeration of all thread schedules at the RwLock operations of the three caches (iterated preemption bound) on the real code",
-             text="All interleavings of 2-3 threads (4 at preemption bound 2) at every lock acquisition of the secret-key-power caches and the Galois table cache are executed on real OS threads under a cooperative scheduler; each thread's result must equal the sequential result, cache lengths must be monotone, no deadlock.",
+             text="All interleavings of 2-3 threads at every lock acquisition and release (decryption pairs / triples and key-generation pairs unbounded; Galois-key triples, rotation pairs and mixed pairs preemption-bounded, bound stated per scenario in the evidence; 4 threads at bound 2 in the thorough tier) of the secret-key-power caches and the Galois table cache are executed on real OS threads under a cooperative scheduler; each thread's result must equal the sequential result, cache lengths must be monotone, no deadlock.",
              note="lock-operation granularity; weak memory not modelled (no atomics in the crate)", ref="5/C17"),
  "C18": dict(engine="E5", technique="explicit-state BFS over message delivery orders (subset lattice), states materialised by replaying histories on the real protocol objects",
              text="For n=2..3 (4 thorough) every delivery order of every protocol round is explored; canonical states reached by different histories must agree, incomplete parties must refuse to finish, final outputs are checked against the summed key / the plaintext.",
@@ -67,7 +67,7 @@ P = {
              note="N in {4,8,16} (thorough to 64)", ref="5/C19"),
  "C20": dict(engine="E1", technique="bounded exhaustive enumeration of all shapes in a box per helper x objective x packing x transport, unit-matrix pairs (bilinearity) + dense fills",
              text="Every shape (m,r,n) / (batch, channels, image, kernel) in a box is run through the real helpers at small N and compared with a u128 reference product / correlation; encode_outputs/decrypt_outputs inverse; RNS-plaintext wrapper on complete value spaces.",
-             note="large-N runs are spot checks", ref="5/C20"),
+             note="N >= 128: structured shape families (`big_*` sections), not the full box", ref="5/C20"),
 }
 
 def main():
@@ -86,7 +86,7 @@ def main():
                 "level_claimed": {
                     "category": "fault_enumeration" if pid == "C15" else "model_checking",
                     "text": p["text"],
-                    "design_ref": "DESIGN.md section " + p["ref"],
+                    "design_ref": "DESIGN.md section " + p["ref"] + " (design) and section 5a (as built)",
                 },
                 "level_note": p["note"] + ("" if pid in ("C16", "C17") else "; complete products at N <= 64 / <= 6 primes, production sizes (N up to 8192+, up to 18-64 primes, long inputs / containers / many parties) by structured exhaustive families (every unit vector, length, step, count, level), see DESIGN 5a"),
                 "technique": p["technique"],
